@@ -8908,8 +8908,12 @@ bool SoPlexBase<R>::_parseSettingsLine(char* line, const int lineNumber)
    }
    else
    {
-      *line = '\0';
-      line++;
+      // do not step over the end of the string
+      if(*line != '\0')
+      {
+         *line = '\0';
+         line++;
+      }
 
       // search for the ':' char in the line
       while(*line == ' ' || *line == '\t' || *line == '\r')
@@ -8951,8 +8955,12 @@ bool SoPlexBase<R>::_parseSettingsLine(char* line, const int lineNumber)
    }
    else
    {
-      *line = '\0';
-      line++;
+      // do not step over the end of the string
+      if(*line != '\0')
+      {
+         *line = '\0';
+         line++;
+      }
 
       // search for the '=' char in the line
       while(*line == ' ' || *line == '\t' || *line == '\r')
@@ -9401,8 +9409,12 @@ bool SoPlexBase<R>::parseSettingsString(char* string)
    }
    else
    {
-      *line = '\0';
-      line++;
+      // do not step over the end of the string
+      if(*line != '\0')
+      {
+         *line = '\0';
+         line++;
+      }
 
       // search for the ':' char in the line
       while(*line == ' ' || *line == '\t' || *line == '\r')
@@ -9442,8 +9454,12 @@ bool SoPlexBase<R>::parseSettingsString(char* string)
    }
    else
    {
-      *line = '\0';
-      line++;
+      // do not step over the end of the string
+      if(*line != '\0')
+      {
+         *line = '\0';
+         line++;
+      }
 
       // search for the '=' char in the line
       while(*line == ' ' || *line == '\t' || *line == '\r')
